@@ -25,6 +25,7 @@ type specEnv struct {
 	iter  *loopInfo       // the loop whose current iteration iterStart() refers to
 	depth int
 	inOld bool
+	callee bool // the clause is a callee's postcondition assumed at a call site: ghosts about the callee's own execution are unknown here
 }
 
 func (e *specEnv) isParam(v *types.Var) bool {
@@ -530,6 +531,9 @@ func (e *specEnv) callExpr(c *ast.CallExpr) Val {
 					e.fail(c, "lastInt needs a string literal")
 				}
 				name := strings.Trim(bl.Value, "\"`")
+				if e.callee {
+					return scalar(Fresh("lastInt", BV(64)), types.Typ[types.Int64])
+				}
 				v, have := e.x.lastRes[name]
 				if !have || v.K != VScalar || v.T == nil || v.T.S.K != KBV {
 					e.fail(c, "no integer result recorded for a call of %s before this point", name)
@@ -542,6 +546,9 @@ func (e *specEnv) callExpr(c *ast.CallExpr) Val {
 					e.fail(c, "lastBool needs a string literal")
 				}
 				name := strings.Trim(bl.Value, "\"`")
+				if e.callee {
+					return scalar(Fresh("lastBool", SBool), types.Typ[types.Bool])
+				}
 				v, have := e.x.lastRes[name]
 				if !have || v.K != VScalar || v.T == nil || v.T.S != SBool {
 					e.fail(c, "no boolean result recorded for a call of %s before this point", name)
